@@ -182,11 +182,18 @@ Record pcase := {
   pc_fps : list Z;                   (* observed: the same content sent in other orders *)
   pc_fp_djb : Z;                     (* observed: the same request under FingerPrintType = Bernstein *)
   pc_fps_djb : list Z;               (* observed: the other orders under FingerPrintType = Bernstein *)
-  pc_doc : string                    (* observed: the series row's labels text *)
+  pc_doc : string;                   (* observed: the series row's labels text *)
+  pc_has_hdr : bool;                 (* the request was also sent with a TTL header (X-Ttl-Days: 7) *)
+  pc_fp_hdr : Z                      (* observed: its fingerprint then *)
 }.
 Definition pc_labels (c : pcase) : list label := on_entries_labels 0 (wire_labels (pc_wire c)).
 Definition pm_fp (c : pcase) : bool := negb (fingerprint_tbl (pc_ch c) (pc_labels c) =? pc_fp c).
 Definition pm_djb (c : pcase) : bool := negb (fingerprint_djb_tbl (pc_ch c) (pc_labels c) =? pc_fp_djb c).
+(* with a TTL header onEntries keeps the control label __ttl_days__ *)
+Definition pm_hdr (c : pcase) : bool :=
+  pc_has_hdr c && negb (fingerprint_tbl (pc_ch c) (on_entries_labels 7 (wire_labels (pc_wire c))) =? pc_fp_hdr c).
+(* spec: the fingerprint does not depend on the request (here: on whether a TTL header came with it) *)
+Definition pv_hdr (c : pcase) : bool := pc_has_hdr c && negb (pc_fp_hdr c =? pc_fp c).
 (* the order of a Go map is not the model's: for OTLP logs and Influx tags the document is compared as what
    encodeLabels writes for the order it shows, over the same labels *)
 Definition same_labels (a b : list label) : bool :=
@@ -221,4 +228,5 @@ Definition pv_unsanitized (c : pcase) : bool :=
 
 Definition pids (f : pcase -> bool) (cs : list pcase) : list Z := map pc_id (filter f cs).
 Definition preport (cs : list pcase) : list (list Z) :=
-  [pids pm_fp cs; pids pm_djb cs; pids pm_doc cs; pids pv_perm cs; pids pv_doc cs; pids pv_unsanitized cs].
+  [pids pm_fp cs; pids pm_djb cs; pids pm_doc cs; pids pv_perm cs; pids pv_doc cs; pids pv_unsanitized cs;
+   pids pm_hdr cs; pids pv_hdr cs].
